@@ -66,3 +66,70 @@ pub open spec fn pm_view(p: PassMode) -> PMV {
         PassMode::Indirect(s) => PMV::Indirect(s),
     }
 }
+/// what fn_ty_to_abi relies on about a classification (established by classify_arg)
+pub open spec fn classes_ok(ty: Ty, cls: Seq<Class>) -> bool {
+    &&& cls.len() == 8
+    &&& forall|k: int| 0 <= k < 8 ==> scalar_class(#[trigger] cls[k])
+    &&& ty_is_aggregate(ty) ==> 1 <= tsize(ty) <= 16 && cls[0] != Class::NoClass && (tsize(ty) > 8 ==> cls[1] != Class::NoClass)
+}
+pub open spec fn has_machine_type(ty: Ty) -> bool { tfinal(ty) is Number || tfinal(ty) is Pointer }
+pub open spec fn machine_type(ty: Ty) -> Type {
+    match tfinal(ty) { FinalTy::Number(nt) => nt.ty, FinalTy::Pointer(t) => t, _ => types::I64 }
+}
+/// a value that got its registers: an aggregate one register per eightbyte, a scalar as itself
+pub open spec fn in_registers(ty: Ty, cls: Seq<Class>) -> PMV {
+    if ty_is_aggregate(ty) { PMV::Cast { tys: psabi_regs(cls[0], cls[1], tsize(ty) as int), orig: ty } }
+    else { PMV::Direct(machine_type(ty)) }
+}
+
+// ---- register assignment: psABI 3.2.3 "Passing" ----------------------------------------------
+/// registers still free: "%rdi, %rsi, %rdx, %rcx, %r8 and %r9" / "%xmm0 to %xmm7"
+pub ghost struct Regs { pub ints: int, pub sses: int }
+pub open spec fn count_class(cls: Seq<Class>, c: Class, upto: int) -> int decreases upto {
+    if upto <= 0 { 0 } else { count_class(cls, c, upto - 1) + (if cls[upto - 1] == c { 1int } else { 0int }) }
+}
+/// bytes an argument of class MEMORY occupies on the stack ("rounded up to eightbytes")
+pub open spec fn stack_size(ty: Ty) -> nat { rup(stride_of(ty), 8) }
+/// one argument, given the registers still free: how it travels and what is left.
+/// "If there are no registers available for any eightbyte of an argument, the whole argument
+/// is passed on the stack. If registers have already been assigned for some eightbytes of such
+/// an argument, the assignments get reverted."
+pub open spec fn pass_arg(ty: Ty, r: Regs) -> (Option<PMV>, Regs) {
+    if ty_zero_sized(ty) { (None, r) }
+    else {
+        match classify_spec(ty) {
+            Some(cls) => {
+                let ni = count_class(cls, Class::Int, 8);
+                let ns = count_class(cls, Class::Sse, 8);
+                if ni <= r.ints && ns <= r.sses { (Some(in_registers(ty, cls)), Regs { ints: r.ints - ni, sses: r.sses - ns }) }
+                else if ty_is_aggregate(ty) { (Some(PMV::Indirect(Some(stack_size(ty) as usize))), r) }
+                else { (Some(PMV::Direct(machine_type(ty))), r) }
+            },
+            // class MEMORY
+            None => (Some(PMV::Indirect(Some(stack_size(ty) as usize))), r),
+        }
+    }
+}
+pub open spec fn pass_args(args: Seq<ParamTy>, k: int, r0: Regs) -> (Seq<(PMV, u16)>, Regs) decreases k {
+    if k <= 0 { (Seq::empty(), r0) } else {
+        let prev = pass_args(args, k - 1, r0);
+        let one = pass_arg(*args[k - 1].ty.0, prev.1);
+        (if one.0 is Some { prev.0.push((one.0->0, (k - 1) as u16)) } else { prev.0 }, one.1)
+    }
+}
+/// the return value: "If the type has class MEMORY, then the caller provides space for the
+/// return value and passes the address of this storage in %rdi as if it were the first
+/// argument" -- which costs one integer register
+pub open spec fn pass_ret(ty: Ty) -> (Option<PMV>, Regs) {
+    if ty_zero_sized(ty) { (None, Regs { ints: 6, sses: 8 }) }
+    else {
+        match classify_spec(ty) {
+            Some(cls) => (Some(in_registers(ty, cls)), Regs { ints: 6, sses: 8 }),
+            None => (Some(PMV::Indirect(Some(tsize(ty) as usize))), Regs { ints: 5, sses: 8 }),
+        }
+    }
+}
+pub open spec fn args_match(v: Seq<(PassMode, u16)>, p: Seq<(PMV, u16)>) -> bool {
+    v.len() == p.len() && forall|j: int| 0 <= j < v.len() ==> pm_view(#[trigger] v[j].0) == p[j].0 && v[j].1 == p[j].1
+}
+pub open spec fn ret_view(r: Option<PassMode>) -> Option<PMV> { match r { Some(m) => Some(pm_view(m)), None => None } }
